@@ -156,11 +156,17 @@ type Class struct {
 	Impl []string
 }
 
+// Iface is an interface declaration with the interfaces it extends.
+type Iface struct {
+	Name string
+	Ext  []string
+}
+
 // Program is a whole program.
 type Program struct {
 	Funcs   map[string]Func
 	Classes map[string]Class // exception classes; roots extend \Exception
-	Ifaces  []string
+	Ifaces  []Iface // parents before children
 	Main    []N
 	Tags    []string // scenario id components
 }
@@ -186,6 +192,14 @@ func (p *Program) JSON() N {
 			im = append(im, i)
 		}
 		cs[n] = N{"ext": c.Ext, "impl": im}
+	}
+	// interfaces are entries of the same table: their parents are listed under impl
+	for _, i := range p.Ifaces {
+		im := []any{}
+		for _, e := range i.Ext {
+			im = append(im, e)
+		}
+		cs[i.Name] = N{"ext": "", "impl": im}
 	}
 	// TLC needs a non-empty record to take DOMAIN of; add inert entries
 	fs["zz_unused"] = N{"params": []any{}, "body": []any{}}
@@ -420,7 +434,11 @@ func (p *Program) Source(ns string) string {
 		pr.line("namespace %s;", ns)
 	}
 	for _, i := range p.Ifaces {
-		pr.line("interface %s {}", i)
+		if len(i.Ext) > 0 {
+			pr.line("interface %s extends %s {}", i.Name, strings.Join(i.Ext, ", "))
+		} else {
+			pr.line("interface %s {}", i.Name)
+		}
 	}
 	// parents before children
 	names := make([]string, 0, len(p.Classes))
